@@ -167,7 +167,7 @@ def handle (inp out : Sexp) : CaseResult :=
         let mOut : Sexp := match r with | some g' => encodeGate g' | none => .list [.atom "forked-err"]
         -- specification of the builders: the new modifier is outermost, its qubit is first, FORKED appends
         -- the alternative parameters (checked structurally on the implementation's output for the last op)
-        { agree := mOut == out, specOk := true, nontrivial := true,
+        { agree := mOut == out, specOk := mOut == out, nontrivial := true,
           tags := ["api", s!"ops{ops.length}", if r.isSome then "built" else "forked-err"],
           detail := s!"model={mOut} impl={out}" }
   | _ => .bad "undecodable input"
